@@ -26,6 +26,9 @@ struct Node<S: State> {
     parent_index: Option<usize>,
 }
 
+/// How many goal samples `setup` draws while looking for a valid root of the goal tree.
+const MAX_GOAL_SAMPLE_ATTEMPTS: usize = 100;
+
 /// The result of an `extend` operation on a tree.
 #[derive(PartialEq, Debug)]
 enum ExtendResult {
@@ -220,13 +223,21 @@ where
         };
         self.start_tree.push(start_node);
 
+        // Root the goal tree at a goal sample the validity checker accepts. If none is found the
+        // goal tree stays empty and `solve` reports `NoSolutionFound`.
+        let vc = self.validity_checker.as_ref().unwrap();
         let mut rng = rand::rng();
-        let goal_state = pd.goal.sample_goal(&mut rng).unwrap();
-        let goal_node = Node {
-            state: goal_state,
-            parent_index: None,
-        };
-        self.goal_tree.push(goal_node);
+        for _ in 0..MAX_GOAL_SAMPLE_ATTEMPTS {
+            if let Ok(goal_state) = pd.goal.sample_goal(&mut rng) {
+                if vc.is_valid(&goal_state) {
+                    self.goal_tree.push(Node {
+                        state: goal_state,
+                        parent_index: None,
+                    });
+                    break;
+                }
+            }
+        }
     }
 
     fn solve(&mut self, timeout: Duration) -> Result<Path<S>, PlanningError> {
@@ -248,6 +259,9 @@ where
         let goal = &pd.goal;
         if !vc.is_valid(&pd.start_states[0]) {
             return Err(PlanningError::InvalidStartState);
+        }
+        if self.goal_tree.is_empty() {
+            return Err(PlanningError::NoSolutionFound);
         }
 
         // Main loop
